@@ -222,8 +222,13 @@ int s_advance_to_closing_tag(
             if (!aws_byte_cursor_find_exact(&parser->doc, &to_find_open, &open_find_result)) {
                 if (open_find_result.ptr < close_find_result.ptr) {
                     size_t skip_len = open_find_result.ptr - parser->doc.ptr;
+                    /* "<name" only opens a nested node of the same name if the name ends there:
+                     * "<ab>" is not a nested "<a>". (The closing tag found above follows, so the byte exists.) */
+                    uint8_t after_name = open_find_result.ptr[to_find_open.len];
                     aws_byte_cursor_advance(&parser->doc, skip_len + 1);
-                    depth_count++;
+                    if (after_name == '>' || after_name == ' ' || after_name == '/') {
+                        depth_count++;
+                    }
                     continue;
                 }
             }
